@@ -911,6 +911,29 @@ def schema_cases(ctx, mode, mutevery, label, wide=False):
     return allf
 
 
+def random_schema_cases(ctx, mode, ntypes, every, label, genonly=False, seedoff=0, maxinh=None):
+    """Random type systems beyond the catalogue: vh schema-gen writes the types (only types), TLC enumerates their inhabitants
+    / the local mutations of those and evaluates ReprOf / FromType / FromRepr (SchemaGen, SMode = file-*)."""
+    types = os.path.join(ctx.scratch, "types-%s.ndjson" % label)
+    ctx.vh_run(["schema-gen", "-n", str(ntypes), "-seed", str(ctx.seed * 7 + seedoff), "-out", types,
+                "-maxinh", str(maxinh or (600 if mode == "mutants" else 1500))] + (["-genonly"] if genonly else []))
+    jobs, files = [], []
+    nsh = 8
+    for sh in range(nsh):
+        f = os.path.join(ctx.scratch, "sgf-%s-%d.ndjson" % (label, sh))
+        files.append(f)
+        jobs.append(dict(module="SchemaGen", cfg=sg_cfg("file-" + mode, sh, nsh, every), capture=f, workers=1, heap="3g",
+                         trace_file=types, timeout=3000))
+    ctx.tlc_parallel(jobs, max_procs=8)
+    allf = os.path.join(ctx.scratch, "sgf-%s.ndjson" % label)
+    with open(allf, "w") as out:
+        for f in files:
+            out.write(open(f).read())
+            os.remove(f)
+    ctx.last_types_file = types
+    return allf
+
+
 @prop("C08")
 def c08(ctx):
     f = schema_cases(ctx, "conforming", 1, "conf")
@@ -920,6 +943,12 @@ def c08(ctx):
     # library's schema/dsl parser, schema/dmt and Compile instead of the schema.Spawn* calls
     args = ["schema", "-in", f, "-roundtrip", "-dsl"]
     ctx.absorb(ctx.vh_run(args, timeout=3000), args, label="schema/conforming-dsl")
+    # random type systems beyond the catalogue (a seeded sample of the inhabitants of each), both ways of building them
+    quick = ctx.tier == "quick"
+    fr = random_schema_cases(ctx, "conforming", 60 if quick else 400, 3, "rconf")
+    for extra, label in (([], "schema/random-types"), (["-dsl"], "schema/random-types-dsl")):
+        args = ["schema", "-in", fr, "-roundtrip"] + extra
+        ctx.absorb(ctx.vh_run(args, timeout=3000), args, label=label)
     return ctx.finish(
         "model_checking",
         rule="cases = every inhabitant (up to the value bound) of each of 34 types of the catalogue: every representation "
@@ -930,7 +959,10 @@ def c08(ctx):
              "representation-level builder of bindnode, reads both views of both nodes through every read form, then "
              "encodes the representation (dag-cbor, dag-json), decodes through the representation builder and re-encodes; "
              "every case runs twice: over the type system spawned through the Go API, and over the one the library loads "
-             "from the type rendered as Schema DSL text (schema/dsl parser, schema/dmt, Compile); "
+             "from the type rendered as Schema DSL text (schema/dsl parser, schema/dmt, Compile); plus seeded RANDOM type "
+             "systems beyond the catalogue (every strategy nested in the others at random, random renames, optional / "
+             "nullable fields, enums and unions of every representation): vh schema-gen writes only the types, TLC enumerates "
+             "their inhabitants (a hashed third of them) and evaluates the same mappings; "
              "non-trivial = every case; distinct = distinct (type, value)",
         assumptions=["stringjoin field values and stringprefix member strings do not contain the delimiter (the representation "
                      "is not injective there by construction)", "generated code is compared under C13"],
@@ -945,6 +977,10 @@ def c09(ctx):
     ctx.absorb(ctx.vh_run(args, timeout=3000), args, label="schema/mutants")
     args = ["schema", "-in", f, "-dsl"]    # the type system loaded from rendered DSL text
     ctx.absorb(ctx.vh_run(args, timeout=3000), args, label="schema/mutants-dsl")
+    # the local mutations of inhabitants of random type systems beyond the catalogue
+    fr = random_schema_cases(ctx, "mutants", 16 if quick else 150, 23 if quick else 7, "rmut", seedoff=1)
+    args = ["schema", "-in", fr]
+    ctx.absorb(ctx.vh_run(args, timeout=3000), args, label="schema/random-types-mutants")
     # the second typed-node engine: code generated afresh from the working tree, same mutants
     fconf = schema_cases(ctx, "conforming", 1, "conf")
     genrun = gen_engine(ctx, fconf)
@@ -1003,11 +1039,19 @@ def c13(ctx):
     quick = ctx.tier == "quick"
     fconf = schema_cases(ctx, "conforming", 1, "conf")
     fmut = schema_cases(ctx, "mutants", 29 if quick else 5, "mut")
-    genrun = gen_engine(ctx, fconf)
+    # random type systems inside the generator's feature set are generated and compiled together with the catalogue's
+    frc = random_schema_cases(ctx, "conforming", 25 if quick else 120, 3, "gconf", genonly=True, seedoff=2, maxinh=600)
+    frm = random_schema_cases(ctx, "mutants", 25 if quick else 120, 23 if quick else 7, "gmut", genonly=True, seedoff=2, maxinh=600)
+    fall = os.path.join(ctx.scratch, "sg-conf-all.ndjson")
+    with open(fall, "w") as out:
+        out.write(open(fconf).read())
+        out.write(open(ctx.last_types_file).read())     # every random type, also those whose sampled inhabitants are none
+    genrun = gen_engine(ctx, fall)
     if genrun is None:
         return ctx.finish("model_checking", rule="generated package failed to compile", exhaustive=False)
     # (3) the same cases as C08 / C09 on the generated prototypes
-    for label, f, extra in (("conforming", fconf, ["-roundtrip"]), ("mutants", fmut, [])):
+    for label, f, extra in (("conforming", fconf, ["-roundtrip"]), ("mutants", fmut, []),
+                            ("random-types-conforming", frc, ["-roundtrip"]), ("random-types-mutants", frm, [])):
         args = ["genschema", "-in", f] + extra
         rep = ctx.vh_run(args, binary=genrun, timeout=3000)
         ctx.absorb(rep, args, label="genrun/" + label, binary=genrun)
